@@ -298,43 +298,49 @@ func TestStackModel(t *testing.T) {
 		}
 		return
 	}
-	rapid.Check(t, func(t *rapid.T) {
-		w := newSWorld(t)
-		next := 0
-		val := func() int {
-			if rapid.Bool().Draw(t, "dup") {
-				return rapid.IntRange(0, 3).Draw(t, "v")
-			}
-			next++
-			return next + 10
-		}
-		stack := func() int { return rapid.IntRange(0, 1).Draw(t, "stack") }
-		hnd := func() int {
-			if len(w.hs) == 0 {
-				return -1
-			}
-			return rapid.IntRange(0, len(w.hs)-1).Draw(t, "item")
-		}
-		t.Repeat(map[string]func(*rapid.T){
-			"Push":       func(*rapid.T) { w.apply(Op{Op: "Push", L: stack(), V: val()}) },
-			"Append":     func(*rapid.T) { next += 2; w.apply(Op{Op: "Append", L: stack(), V: next + 10}) },
-			"Pop":        func(*rapid.T) { w.apply(Op{Op: "Pop", L: stack()}) },
-			"NewItem":    func(*rapid.T) { w.apply(Op{Op: "NewItem", V: val()}) },
-			"HeadAppend": func(*rapid.T) { w.apply(Op{Op: "HeadAppend", L: stack(), A: hnd()}) },
-			"ItemRemove": func(t *rapid.T) {
-				o := Op{Op: "ItemRemove", A: hnd()}
-				if a := w.h(o.A); a != nil && a.stack >= 0 && w.seq[a.stack][0] == a && vkit.Known("C16:stack/ItemRemove-head") {
-					vkit.Excluded(tStack, "C16:stack/ItemRemove-head")
-					t.Skip("open known finding: removing the head item")
-				}
-				w.apply(o)
-			},
-			"Set":          func(*rapid.T) { w.apply(Op{Op: "Set", A: hnd(), V: val()}) },
-			"SetRoot":      func(*rapid.T) { w.apply(Op{Op: "SetRoot", L: stack(), V: val()}) },
-			"JSON":         func(*rapid.T) { w.apply(Op{Op: "JSON", L: stack()}) },
-			"PopIterator":  func(*rapid.T) { w.apply(Op{Op: "PopIterator", L: stack()}) },
-			"FromIterator": func(*rapid.T) { w.apply(Op{Op: "FromIterator", L: stack()}) },
-		})
-		w.finish()
-	})
+	rapid.Check(t, propStackModel)
 }
+
+// propStackModel is the generated property; FuzzStackModel drives the same function with
+// the native coverage-guided fuzzer (rapid.MakeFuzz decodes the bytes).
+func propStackModel(t *rapid.T) {
+	w := newSWorld(t)
+	next := 0
+	val := func() int {
+		if rapid.Bool().Draw(t, "dup") {
+			return rapid.IntRange(0, 3).Draw(t, "v")
+		}
+		next++
+		return next + 10
+	}
+	stack := func() int { return rapid.IntRange(0, 1).Draw(t, "stack") }
+	hnd := func() int {
+		if len(w.hs) == 0 {
+			return -1
+		}
+		return rapid.IntRange(0, len(w.hs)-1).Draw(t, "item")
+	}
+	t.Repeat(map[string]func(*rapid.T){
+		"Push":       func(*rapid.T) { w.apply(Op{Op: "Push", L: stack(), V: val()}) },
+		"Append":     func(*rapid.T) { next += 2; w.apply(Op{Op: "Append", L: stack(), V: next + 10}) },
+		"Pop":        func(*rapid.T) { w.apply(Op{Op: "Pop", L: stack()}) },
+		"NewItem":    func(*rapid.T) { w.apply(Op{Op: "NewItem", V: val()}) },
+		"HeadAppend": func(*rapid.T) { w.apply(Op{Op: "HeadAppend", L: stack(), A: hnd()}) },
+		"ItemRemove": func(t *rapid.T) {
+			o := Op{Op: "ItemRemove", A: hnd()}
+			if a := w.h(o.A); a != nil && a.stack >= 0 && w.seq[a.stack][0] == a && vkit.Known("C16:stack/ItemRemove-head") {
+				vkit.Excluded(tStack, "C16:stack/ItemRemove-head")
+				t.Skip("open known finding: removing the head item")
+			}
+			w.apply(o)
+		},
+		"Set":          func(*rapid.T) { w.apply(Op{Op: "Set", A: hnd(), V: val()}) },
+		"SetRoot":      func(*rapid.T) { w.apply(Op{Op: "SetRoot", L: stack(), V: val()}) },
+		"JSON":         func(*rapid.T) { w.apply(Op{Op: "JSON", L: stack()}) },
+		"PopIterator":  func(*rapid.T) { w.apply(Op{Op: "PopIterator", L: stack()}) },
+		"FromIterator": func(*rapid.T) { w.apply(Op{Op: "FromIterator", L: stack()}) },
+	})
+	w.finish()
+}
+
+func FuzzStackModel(f *testing.F) { f.Fuzz(rapid.MakeFuzz(propStackModel)) }
